@@ -3,6 +3,16 @@ NOTES = ("All claims are level 'other': each check decides structural necessary 
          "Genuine defects found are repaired by 'fix:' commits in /repo or listed in /verif/known_findings.json.")
 PENDING = "static rules for this property are designed (DESIGN.md §3) but not yet implemented in this revision; not claimed until they are"
 CLAIMS = {
+ "C15": {
+  "text": "Linearizability, race freedom in general and deadlock freedom over interleavings are not decidable with the static tooling present and are NOT claimed. Decided are two necessary conditions: a 14-line guarded-by table (blob byte slice under the blob mutex; counters/flags only via sync/atomic; the serial transaction's result map under its mutex; lazily loaded record fields written only in the matching sync.Once.Do closure and read only after it) and check-then-act atomicity of the key-value FS's mutating operations (look-ups and the resulting Set on one Transaction) — the latter fails for all seven operations and is recorded as known findings, one per operation, so a new split operation is still reported.",
+  "note": "Trusted: go/types+go/ssa, lockset dataflow keyed by access path, the frozen table in c15.go (each line confirmed by reading). No alias analysis: a lock reached through an interface would be beyond it.",
+  "technique": "static analysis: guarded-by table checked with must-lockset dataflow / atomic-only use / once-closure ownership; transaction-identity def-use",
+ },
+ "C20": {
+  "text": "Whether the suite rejects each deviant file system is mutation adequacy over executions and is NOT claimed. Decided are properties of the suite's own code whose violation makes it blind: all 36 exported scenarios are registered in a runner; every exported assertion helper reports through testing.TB on every false path and can fail; mode comparisons under the zero FileModeMask keep all bits (fails: 8 known sites); the final-tree comparison is an equality (fails: known); skip data is read after the parallel subtests ran (fails: known x2); no mutable package state.",
+  "note": "Trusted: go/types+go/ssa and rule code; testing.TB failure methods mark the test failed. Known findings demonstrated in /verif/findings/C20_deviants_pass_test.go.txt.",
+  "technique": "static analysis: reference scan, path enumeration over assertion helpers, bit-operation shape rule, call-order rule",
+ },
  "C01": {
   "text": "Exhaustive over a finite space: the flag decision table of the key-value FS's OpenFile — 48 flag values x 5 look-up situations = 240 cells; in each the single feasible path is followed (flag tests evaluated as constants of the loaded target, look-up tests from the situation) and the outcome (handle kind, create/truncate reached, or error sentinel) must equal the frozen os.OpenFile reference; plus permission masking: caller bits reaching a new record's mode are within ModePerm, Chmod within ModePerm|Setuid|Setgid|Sticky, directory records carry ModeDir. Equality of results/data/trees with os over operation histories is NOT decided.",
   "note": "Trusted: go/types+go/ssa, the path evaluator, the reference table in c01.go. Fault-free evaluation (store writes succeed).",
